@@ -253,6 +253,19 @@ def check(pid, tier):
         if pid == "C20":
             import http_rig
             svc = http_rig.c20_http(run, pid)
+        else:
+            # the same histories through the real DhcpService: frames on a veth pair, configuration swapped live, the
+            # service's own lease file read (and aged) through the harness's connection
+            import http_rig
+            pk = [s for s in scen if s.get("lvl") == "pkt" and not any(st["k"] == "msg" and st.get("relay") for st in s["steps"])]
+            pick = pk if run.thorough else run.rng.sample(pk, min(len(pk), 25))
+            tf, sl, p = http_rig.run_full(run, pid, [{"acls": None, "lease": s, "steps": []} for s in pick], "lease")
+            if not any('"lvl":"svc"' in l for l in sl):
+                raise ToolError("rig full produced no service-level lease events (exit %s): %s" % (p.returncode, (p.stderr or "")[-300:]))
+            rep = tlc_trace(run, "LeaseTrace", "LeaseTrace.cfg", tf, {"Enforce": tla_set([pid])}, tag="svc")
+            record_violations(run, pid, rep["viol"], sl, trace_name="dhcp-svc")
+            run.drift += len(rep["drift"])
+            svc = {"scenarios": len(pick), "events": len(sl), "counters": rep["stats"]}
         nontrivial = sum(1 for s in scen if sum(1 for st in s["steps"] if st["k"] == "msg") >= 3 and
                          len({st["c"] for st in s["steps"] if st["k"] == "msg"}) >= 2)
         distinct = len({scen_hash(s["steps"]) for s in scen})
